@@ -156,6 +156,7 @@ class ArrayMap(Map):
         if not self.size:  # nobody is actually using the map
             return
         fd = self.create_map(ebpf, fd)
+        saved = ebpf.owners & set(range(1, 6))
         with ebpf.save_registers(list(range(6))), ebpf.get_stack(4) as stack:
             ebpf.mI[ebpf.r10 + stack] = 0
             ebpf.r1 = ebpf.get_fd(fd)
@@ -163,6 +164,7 @@ class ArrayMap(Map):
             ebpf.call(FuncId.map_lookup_elem)
             with ebpf.r0 == 0:
                 ebpf.exit()
+        ebpf.owners |= saved  # restored by save_registers
         ebpf.owners.add(0)
         if self.base_register != 0:
             ebpf.r[self.base_register] = ebpf.r0
